@@ -87,8 +87,11 @@ func giExec(r *Run, line string) {
 			if err != nil {
 				return "cons err"
 			}
+			// the request carries a second, different claim after this one (entries must not share storage)
+			other := &agglayertypes.ImportedBridgeExit{BridgeExit: ibe.BridgeExit, ClaimData: ibe.ClaimData,
+				GlobalIndex: &agglayertypes.GlobalIndex{MainnetFlag: !ibe.GlobalIndex.MainnetFlag, RollupIndex: ibe.GlobalIndex.RollupIndex + 1, LeafIndex: ibe.GlobalIndex.LeafIndex + 7}}
 			req := aggsendertypes.NewAggchainProofRequest(0, 0, h, zeroL1Leaf(), agglayertypes.MerkleProof{}, nil,
-				[]*agglayertypes.ImportedBridgeExitWithBlockNumber{{BlockNumber: 1, ImportedBridgeExit: ibe}})
+				[]*agglayertypes.ImportedBridgeExitWithBlockNumber{{BlockNumber: 1, ImportedBridgeExit: ibe}, {BlockNumber: 1, ImportedBridgeExit: other}})
 			pr := aggchainproofclient.VerifConvertAggchainProofRequest(req)
 			parts[0], parts[1], parts[2], parts[3] = h.Bytes(), fep, p.GlobalIndex.Value, pr.ImportedBridgeExits[0].GlobalIndex.Value
 			// the optimistic-mode signed commitment over the same claim
